@@ -1,7 +1,7 @@
 (** Extraction of the executable model and the property acceptors to OCaml.
     Directives in force: exactly those of [ExtrOcamlBasic] (bool, option, list, prod, unit,
     sumbool, sumor mapped to OCaml's own); [nat] stays the unary inductive. *)
-From Hannibal Require Import Model.Sys Chk.C12 Chk.C03 Chk.C14 Chk.C13 Chk.C11 Chk.C04 Chk.C09 Chk.C10 Chk.C05 Chk.C16 Chk.C09q.
+From Hannibal Require Import Model.Sys Chk.C12 Chk.C03 Chk.C14 Chk.C13 Chk.C11 Chk.C04 Chk.C09 Chk.C10 Chk.C05 Chk.C16 Chk.C09q Chk.C09s.
 Require Import ExtrOcamlBasic.
 Extraction Language OCaml.
-Extraction "model.ml" decode init step run_diag accepts chk_C12 chk_C12_nowait chk_C03 chk_C14 chk_C13 chk_C11 chk_C04 chk_C09 chk_C10 chk_C05 chk_C16 chk_C09q.
+Extraction "model.ml" decode init step run_diag accepts chk_C12 chk_C12_nowait chk_C03 chk_C14 chk_C13 chk_C11 chk_C04 chk_C09 chk_C10 chk_C05 chk_C16 chk_C09q chk_C09s.
